@@ -811,6 +811,10 @@ class SingleInstanceDataset(BaseDataset):
             use_existing_chunks=use_existing_chunks,
         )
         self.confmap_head_config = confmap_head_config
+        # single-instance samples are never padded to the largest instance count of the
+        # labels (as in `single_instance_data_chunks`): an empty instance left in a frame
+        # must not add NaN keypoints and extra confidence-map channels.
+        self.max_instances = 1
         if not self.use_existing_chunks:
             rank = get_dist_rank()
             if (
